@@ -142,8 +142,20 @@ def tTreeRoot (cs : List TCons) : CTree TCons :=
     let t := { withTransitiveMutex rest tconsMutex with makeDet := true }
     trues.foldl (fun t ci => t.addLabel 0 ci.2) t
 
+/-- Strategy 5: only the smallest constraint, but `Ne(a, b)` is decomposed into the two mutually
+exclusive pieces `Lt(a, b)` and `Lt(b, a)`, BOTH labelled with the index of the `Ne` constraint —
+a contract-conforming tree in which one constraint index labels several sibling nodes (the builder
+then creates two differently labelled transitions to the same child state). -/
+def tTreeSplit (cs : List TCons) : CTree TCons :=
+  match sortWithIndices tconsLe cs with
+  | [] => CTree.new
+  | (c, i) :: _ =>
+    match c.pred, c.args with
+    | .ne, [a, b] => withChildren [(⟨.lt, [a, b]⟩, [i]), (⟨.lt, [b, a]⟩, [i])]
+    | _, _ => withChildren [(c, [i])]
+
 /-- All strategies of the table domain. -/
 def tTreeAll (s : Nat) (cs : List TCons) (fuel : Nat) : Option (CTree TCons) :=
-  if s ≤ 3 then tTree s cs fuel else some (tTreeRoot cs)
+  if s ≤ 3 then tTree s cs fuel else if s = 4 then some (tTreeRoot cs) else some (tTreeSplit cs)
 
 end Pm
